@@ -1,2 +1,789 @@
-(* placeholder *)
-From IPC Require Import RSet.
+(* RouterProofs: safety and liveness-style properties of the router model (model/Router.v).
+
+   Everything is proved for every schedule [ls] with [run init ls = Some s] (and, where handler / channel
+   identities matter, [routes_once ls [] [] = true]) by three invariants:
+
+   - InvS s        (state only): wake-ups pair with control messages ([wakeups = length ctlq], which in this
+                   model holds even after the router stopped); shape of the control queue w.r.t. the shutdown
+                   flag (no Shutdown while the flag is clear; exactly one, in last position, while the flag is
+                   set and the router runs; EMPTY once the router stopped); stopped -> routes = [];
+                   stopped -> flag \/ proxy dead; Ack <-> stopped-by-shutdown; waiting_ack > 0 -> flag;
+                   no Panic; per channel c  [calls_on c effects ++ queue c = sent c]  (calls_on = messages of
+                   all Call _ c x, whatever the handler); route ids are distinct and < nextrid.
+   - InvH hist s   (w.r.t. the executed prefix hist): every Call h c x, every route (r,(c,h)) and every queued
+                   AddRoute c h comes from a PAddRoute c h of hist; and the handler ledger
+                     #PAddRoute _ h in hist = #h in routes + #h in ctlq + drops_of h effects.
+   - InvW s        (needs "each handler added at most once" on the prefix): no Call h after a drop of h in the
+                   effect log (NCAD), and DropArgs h -> h never called.
+
+   Deviations from the requested statements: none is weakened.  [stop_drops_all] is proved as stated and also
+   in the stronger form without the escape clause ([stop_drops_all_strong], [stopped_ctlq_empty]): when the
+   router has stopped its control queue is empty (after Shutdown nothing is enqueued because the flag is set;
+   REvWakeClosed needs wakeups = 0 = length ctlq), so every added handler has been dropped exactly once.
+   [shutdown_progress] is true as stated: with flag set and the router running the queue ends with Shutdown,
+   hence wakeups > 0, hence REvWakeClosed is disabled and REvWake enabled. *)
+From Coq Require Import List Arith Bool Lia.
+From IPC Require Import Router.
+Import ListNotations.
+
+(* ------------------------------------------------------------------ *)
+(* generic list facts                                                  *)
+
+Definition dflt : chanst := {| queue := []; hup := false; sent := [] |}.
+
+Lemma run_app : forall a b s,
+  run s (a ++ b) = match run s a with Some s' => run s' b | None => None end.
+Proof. induction a; simpl; intros; auto. destruct (step s a); auto. Qed.
+
+Lemma nth_app_dflt : forall (l : list chanst) c, nth c (l ++ [dflt]) dflt = nth c l dflt.
+Proof.
+  induction l; intros c.
+  - destruct c; simpl; auto. destruct c; auto.
+  - destruct c; simpl; auto.
+Qed.
+
+Lemma nth_set_nth_eq : forall (l : list chanst) i v d, i < length l -> nth i (set_nth l i v) d = v.
+Proof.
+  induction l; simpl; intros i v d Hi; [lia|].
+  destruct i; simpl; auto. apply IHl; lia.
+Qed.
+
+Lemma nth_set_nth_ne : forall (l : list chanst) i j v d, i <> j -> nth i (set_nth l j v) d = nth i l d.
+Proof.
+  induction l; simpl; intros i j v d Hij; auto.
+  destruct j, i; simpl; auto; try lia; try (apply IHl; lia).
+Qed.
+
+Definition cnt {A} (f : A -> bool) (l : list A) : nat := length (filter f l).
+
+Lemma cnt_app : forall A (f : A -> bool) a b, cnt f (a ++ b) = cnt f a + cnt f b.
+Proof. intros; unfold cnt; rewrite filter_app, app_length; reflexivity. Qed.
+Lemma cnt_cons : forall A (f : A -> bool) x l, cnt f (x :: l) = (if f x then 1 else 0) + cnt f l.
+Proof. intros; unfold cnt; simpl; destruct (f x); reflexivity. Qed.
+Lemma cnt_nil : forall A (f : A -> bool), cnt f [] = 0.
+Proof. reflexivity. Qed.
+Lemma cnt_one : forall A (f : A -> bool) x, cnt f [x] = if f x then 1 else 0.
+Proof. intros; rewrite cnt_cons, cnt_nil; destruct (f x); reflexivity. Qed.
+
+Lemma cnt_In : forall A (f : A -> bool) l x, In x l -> f x = true -> 1 <= cnt f l.
+Proof.
+  induction l; simpl; intros x Hi Hf; [contradiction|].
+  rewrite cnt_cons. destruct Hi as [->|Hi].
+  - rewrite Hf; lia.
+  - specialize (IHl x Hi Hf). lia.
+Qed.
+
+Lemma cnt_two : forall A (f : A -> bool) l x y,
+  In x l -> In y l -> x <> y -> f x = true -> f y = true -> 2 <= cnt f l.
+Proof.
+  induction l; simpl; intros x y Hx Hy Hne Fx Fy; [contradiction|].
+  rewrite cnt_cons. destruct Hx as [->|Hx], Hy as [->|Hy].
+  - congruence.
+  - rewrite Fx. pose proof (cnt_In _ f l y Hy Fy). lia.
+  - rewrite Fy. pose proof (cnt_In _ f l x Hx Fx). lia.
+  - specialize (IHl x y Hx Hy Hne Fx Fy). lia.
+Qed.
+
+Lemma NoDup_snoc : forall A (l : list A) x, NoDup l -> ~ In x l -> NoDup (l ++ [x]).
+Proof.
+  induction l; simpl; intros x Hn Hi.
+  - constructor; auto.
+  - inversion Hn; subst. constructor.
+    + intro Hin. apply in_app_or in Hin. destruct Hin as [Hin|[->|[]]]; auto.
+    + apply IHl; auto.
+Qed.
+
+(* lookup / remove_key *)
+Lemma lookup_In : forall B (l : list (nat * B)) k v, lookup l k = Some v -> In (k, v) l.
+Proof.
+  induction l as [|[x w] t IH]; simpl; intros k v H; [discriminate|].
+  destruct (Nat.eqb x k) eqn:E.
+  - apply Nat.eqb_eq in E. inversion H; subst. auto.
+  - right; auto.
+Qed.
+
+Lemma remove_key_notin : forall B (l : list (nat * B)) k, ~ In k (map fst l) -> remove_key l k = l.
+Proof.
+  induction l as [|[x w] t IH]; simpl; intros k H; auto.
+  destruct (Nat.eqb x k) eqn:E.
+  - apply Nat.eqb_eq in E. exfalso; auto.
+  - simpl. f_equal. apply IH. tauto.
+Qed.
+
+Lemma remove_key_In : forall B (l : list (nat * B)) k e, In e (remove_key l k) -> In e l.
+Proof. intros B l k e H. unfold remove_key in H. apply filter_In in H. tauto. Qed.
+
+Lemma remove_key_keys : forall B (l : list (nat * B)) k r, In r (map fst (remove_key l k)) -> In r (map fst l).
+Proof.
+  intros B l k r H. apply in_map_iff in H. destruct H as [e [E H]].
+  apply remove_key_In in H. apply in_map_iff. eauto.
+Qed.
+
+Lemma remove_key_NoDup : forall B (l : list (nat * B)) k, NoDup (map fst l) -> NoDup (map fst (remove_key l k)).
+Proof.
+  induction l as [|[x w] t IH]; simpl; intros k H; auto.
+  inversion H; subst.
+  destruct (negb (Nat.eqb x k)); simpl; auto.
+  constructor; auto. intro Hin. apply remove_key_keys in Hin. auto.
+Qed.
+
+(* ------------------------------------------------------------------ *)
+(* projections of the effect log                                       *)
+
+Definition calls_on (c : cid) (es : list effect) : list nat :=
+  flat_map (fun e => match e with Call _ c' x => if Nat.eqb c' c then [x] else [] | _ => [] end) es.
+
+Lemma calls_on_app : forall c a b, calls_on c (a ++ b) = calls_on c a ++ calls_on c b.
+Proof. intros; apply flat_map_app. Qed.
+Lemma calls_of_app : forall h a b, calls_of h (a ++ b) = calls_of h a ++ calls_of h b.
+Proof. intros; apply flat_map_app. Qed.
+
+Lemma In_drop_all : forall rs e, In e (drop_all rs) -> exists h, e = DropHandler h.
+Proof. intros rs e H. apply in_map_iff in H. destruct H as [x [E _]]. eauto. Qed.
+
+Lemma calls_on_drop_all : forall c rs, calls_on c (drop_all rs) = [].
+Proof. induction rs; simpl; auto. Qed.
+Lemma calls_of_drop_all : forall h rs, calls_of h (drop_all rs) = [].
+Proof. induction rs; simpl; auto. Qed.
+
+Lemma calls_of_none : forall h es, (forall c x, ~ In (Call h c x) es) -> calls_of h es = [].
+Proof.
+  induction es as [|e es IH]; simpl; intros H; auto.
+  rewrite IH by (intros c x Hi; apply (H c x); auto).
+  destruct e; auto. destruct (Nat.eqb h0 h) eqn:E; auto.
+  apply Nat.eqb_eq in E; subst. exfalso. apply (H c x); auto.
+Qed.
+
+Lemma calls_on_none : forall c es, (forall h x, ~ In (Call h c x) es) -> calls_on c es = [].
+Proof.
+  induction es as [|e es IH]; simpl; intros H; auto.
+  rewrite IH by (intros h x Hi; apply (H h x); auto).
+  destruct e; auto. destruct (Nat.eqb c0 c) eqn:E; auto.
+  apply Nat.eqb_eq in E; subst. exfalso. apply (H h x); auto.
+Qed.
+
+Lemma calls_of_on : forall h c es,
+  (forall h' c' x, In (Call h' c' x) es -> (h' = h <-> c' = c)) ->
+  calls_of h es = calls_on c es.
+Proof.
+  induction es as [|e es IH]; simpl; intros H; auto.
+  rewrite IH by (intros h1 c1 x1 Hi; apply (H h1 c1 x1); auto).
+  destruct e; auto.
+  pose proof (H h0 c0 x (or_introl eq_refl)) as Hiff.
+  destruct (Nat.eqb_spec h0 h), (Nat.eqb_spec c0 c); auto; tauto.
+Qed.
+
+Definition isaddh (h : hid) (l : label) : bool := match l with PAddRoute _ h' => Nat.eqb h' h | _ => false end.
+Definition isaddc (c : cid) (l : label) : bool := match l with PAddRoute c' _ => Nat.eqb c' c | _ => false end.
+Definition isr (h : hid) (e : rid * (cid * hid)) : bool := Nat.eqb (snd (snd e)) h.
+Definition isq (h : hid) (m : ctl) : bool := match m with AddRoute _ h' => Nat.eqb h' h | Shutdown => false end.
+Definition isd (h : hid) (e : effect) : bool :=
+  match e with DropHandler h' | DropArgs h' => Nat.eqb h' h | _ => false end.
+
+Lemma drops_of_cnt : forall h es, drops_of h es = cnt (isd h) es.
+Proof. reflexivity. Qed.
+
+Lemma cnt_drop_all : forall h rs, cnt (isd h) (drop_all rs) = cnt (isr h) rs.
+Proof.
+  induction rs as [|e rs IH]; auto.
+  simpl drop_all. rewrite !cnt_cons, IH. reflexivity.
+Qed.
+
+Lemma cnt_remove : forall (l : list (rid * (cid * hid))) r c h,
+  NoDup (map fst l) -> lookup l r = Some (c, h) ->
+  forall h', cnt (isr h') l = cnt (isr h') (remove_key l r) + (if Nat.eqb h h' then 1 else 0).
+Proof.
+  induction l as [|[k v] t IH]; simpl; intros r c h ND L h'; [discriminate|].
+  inversion ND; subst.
+  destruct (Nat.eqb k r) eqn:E; simpl.
+  - apply Nat.eqb_eq in E; subst. inversion L; subst.
+    fold (remove_key t r). rewrite remove_key_notin by assumption.
+    rewrite cnt_cons. unfold isr at 1. simpl. apply Nat.add_comm.
+  - fold (remove_key t r). rewrite !cnt_cons. rewrite (IH r c h H2 L h').
+    apply Nat.add_assoc.
+Qed.
+
+Definition dropped (h : hid) (l : list effect) : Prop := In (DropHandler h) l \/ In (DropArgs h) l.
+Definition NCAD (es : list effect) : Prop :=
+  forall h pre post, es = pre ++ post -> dropped h pre -> calls_of h post = [].
+
+Lemma dropped_app : forall h a b, dropped h (a ++ b) <-> dropped h a \/ dropped h b.
+Proof. unfold dropped; intros; rewrite !in_app_iff; tauto. Qed.
+
+Lemma dropped_cnt : forall h es, dropped h es -> 1 <= cnt (isd h) es.
+Proof.
+  intros h es [H|H]; eapply cnt_In; eauto; simpl; apply Nat.eqb_refl.
+Qed.
+
+Lemma ncad_app : forall es new,
+  NCAD es ->
+  (forall h, dropped h es -> calls_of h new = []) ->
+  ((forall h, calls_of h new = []) \/ (forall h, ~ dropped h new)) ->
+  NCAD (es ++ new).
+Proof.
+  intros es new N H1 H2 h pre post E D.
+  symmetry in E. apply app_eq_app in E. destruct E as [l [[E1 E2]|[E1 E2]]]; subst.
+  - apply dropped_app in D.
+    assert (C : calls_of h (l ++ post) = []).
+    { destruct D as [D|D]; auto. destruct H2 as [H2|H2]; auto.
+      exfalso. apply (H2 h). apply dropped_app; auto. }
+    rewrite calls_of_app in C. apply app_eq_nil in C. tauto.
+  - rewrite calls_of_app. rewrite (N h pre l eq_refl D). simpl.
+    apply H1. apply dropped_app; auto.
+Qed.
+
+(* ------------------------------------------------------------------ *)
+(* step inversion                                                      *)
+
+Ltac inv_step H :=
+  unfold step in H;
+  repeat match type of H with
+  | match ?x with _ => _ end = Some _ => destruct x eqn:?; try discriminate H
+  end;
+  inversion H; subst; clear H.
+
+Ltac clean :=
+  repeat match goal with
+  | H : negb _ = false |- _ => apply negb_false_iff in H
+  | H : negb _ = true |- _ => apply negb_true_iff in H
+  | H : _ && _ = true |- _ => apply andb_prop in H; destruct H
+  | H : _ || _ = false |- _ => apply orb_false_elim in H; destruct H
+  | H : (_ <? _) = true |- _ => apply Nat.ltb_lt in H
+  | H : (_ =? _) = true |- _ => apply Nat.eqb_eq in H
+  end.
+
+Ltac triv := simpl in *; intros; try solve [ assumption | discriminate | congruence | lia | tauto | eauto ].
+
+(* ------------------------------------------------------------------ *)
+(* state invariant                                                     *)
+
+Record InvS (s : st) : Prop := {
+  iPair : wakeups s = length (ctlq s);
+  iNoSh : flag s = false -> ~ In Shutdown (ctlq s);
+  iSh : flag s = true -> stopped s = false -> exists pre, ctlq s = pre ++ [Shutdown] /\ ~ In Shutdown pre;
+  iStQ : stopped s = true -> ctlq s = [];
+  iStR : stopped s = true -> routes s = [];
+  iStP : stopped s = true -> flag s = true \/ proxy_alive s = false;
+  iAck : In Ack (effects s) -> stopped s = true;
+  iFA : flag s = true -> stopped s = true -> In Ack (effects s);
+  iWA : waiting_ack s > 0 -> flag s = true;
+  iNP : ~ In Panic (effects s);
+  iA : forall c, calls_on c (effects s) ++ queue (get s c) = sent (get s c);
+  iND : NoDup (map fst (routes s));
+  iLt : forall r, In r (map fst (routes s)) -> r < nextrid s }.
+
+Lemma InvS_init : InvS init.
+Proof.
+  constructor; simpl; intros; try discriminate; try tauto; try lia.
+  - unfold get; simpl. destruct c; reflexivity.
+  - constructor.
+Qed.
+
+
+Ltac easy1 :=
+  try solve [ intros; simpl in *; (assumption || discriminate || congruence || lia || tauto || eauto) ];
+  try solve [ intros; rewrite ?in_app_iff in *; simpl in *; intuition (try discriminate; try congruence; eauto) ].
+
+Lemma not_in_drop_all_panic : forall rs, ~ In Panic (drop_all rs).
+Proof. intros rs H. apply In_drop_all in H. destruct H; discriminate. Qed.
+Lemma not_in_drop_all_ack : forall rs, ~ In Ack (drop_all rs).
+Proof. intros rs H. apply In_drop_all in H. destruct H; discriminate. Qed.
+
+Lemma sh_head : forall l pre, Shutdown :: l = pre ++ [Shutdown] -> ~ In Shutdown pre -> l = [].
+Proof.
+  intros l pre E N. destruct pre as [|p pre]; simpl in E; inversion E; subst; auto.
+  exfalso; apply N; left; auto.
+Qed.
+
+Lemma step_InvS : forall s l s', InvS s -> step s l = Some s' -> InvS s'.
+Proof.
+  intros s l s' I H. destruct I as [P NS SH SQ SR SP AK FA WA NP A ND LT].
+  destruct l; inv_step H; clean.
+  - (* PNewChan *)
+    constructor; unfold with_chans; simpl; auto.
+    intro c. unfold get in *; simpl. rewrite nth_app_dflt. apply A.
+  - (* PSend *)
+    constructor; unfold with_chans; simpl; auto.
+    intro c0. unfold get in *; simpl. destruct (Nat.eq_dec c0 c) as [->|Hne].
+    + rewrite nth_set_nth_eq by assumption. simpl. rewrite app_assoc, A. reflexivity.
+    + rewrite nth_set_nth_ne by assumption. apply A.
+  - (* PHup *)
+    constructor; unfold with_chans; simpl; auto.
+    intro c0. unfold get in *; simpl. destruct (Nat.eq_dec c0 c) as [->|Hne].
+    + rewrite nth_set_nth_eq by assumption. simpl. apply A.
+    + rewrite nth_set_nth_ne by assumption. apply A.
+  - (* PAddRoute, flag *)
+    constructor; simpl; easy1.
+    intro c0. unfold get in *; simpl. rewrite calls_on_app; simpl. rewrite app_nil_r. apply A.
+  - (* PAddRoute, no flag *)
+    constructor; simpl; easy1.
+    rewrite app_length; simpl; lia.
+  - (* PShutdown, flag *) constructor; easy1.
+  - (* PShutdown, no flag *)
+    constructor; simpl; easy1.
+    rewrite app_length; simpl; lia.
+  - (* PAckWait *) constructor; simpl; easy1.
+  - (* PProxyDrop *) constructor; simpl; easy1.
+  - (* REvWake AddRoute *)
+    constructor; simpl; easy1.
+    + intros F _. destruct (SH F eq_refl) as [pre [E N]].
+      destruct pre as [|p pre]; simpl in E; inversion E; subst.
+      exists pre; split; auto. intro; apply N; right; auto.
+    + rewrite map_app; simpl. apply NoDup_snoc; auto. intro Hi. apply LT in Hi. lia.
+    + intros r Hi. rewrite map_app, in_app_iff in Hi; simpl in Hi.
+      destruct Hi as [Hi|[<-|[]]]; [apply LT in Hi|]; lia.
+  - (* REvWake Shutdown *)
+    assert (F : flag s = true).
+    { destruct (flag s); auto. exfalso; apply NS; simpl; auto. }
+    assert (L : l = []).
+    { destruct (SH F eq_refl) as [pre [E N]]. eapply sh_head; eauto. }
+    constructor; simpl; easy1.
+    + rewrite !in_app_iff; simpl. intros [Hi|[Hi|[Hi|[]]]]; try discriminate; auto.
+      eapply not_in_drop_all_panic; eauto.
+    + intro c. unfold get in *; simpl. rewrite !calls_on_app, calls_on_drop_all; simpl.
+      rewrite app_nil_r. apply A.
+    + constructor.
+  - (* REvMsg *)
+    constructor; simpl; easy1.
+    intro c0. unfold get in *; simpl.
+    assert (Hc : c < length (chans s)).
+    { destruct (lt_dec c (length (chans s))); auto.
+      rewrite nth_overflow in Heql by lia. discriminate. }
+    rewrite calls_on_app; simpl.
+    destruct (Nat.eq_dec c0 c) as [->|Hne].
+    + rewrite nth_set_nth_eq by assumption. simpl. rewrite Nat.eqb_refl.
+      rewrite <- app_assoc; simpl. rewrite <- Heql. apply A.
+    + rewrite nth_set_nth_ne by assumption.
+      destruct (Nat.eqb_spec c c0); [congruence|]. rewrite app_nil_r. apply A.
+  - (* REvClosed *)
+    constructor; simpl; easy1.
+    + intro c0. unfold get in *; simpl. rewrite calls_on_app; simpl. rewrite app_nil_r. apply A.
+    + apply remove_key_NoDup; auto.
+    + intros r0 Hi. apply remove_key_keys in Hi. auto.
+  - (* REvWakeClosed *)
+    assert (Q : ctlq s = []) by (destruct (ctlq s); simpl in *; auto; lia).
+    constructor; simpl; easy1.
+    + intros F _. destruct (SH F H) as [pre [E N]]. rewrite Q in E.
+      exfalso. eapply app_cons_not_nil; eauto.
+    + rewrite in_app_iff. intros [Hi|Hi]; auto. eapply not_in_drop_all_panic; eauto.
+    + intro c. unfold get in *; simpl. rewrite calls_on_app, calls_on_drop_all.
+      rewrite app_nil_r. apply A.
+    + constructor.
+Qed.
+
+Lemma run_InvS : forall ls s s', InvS s -> run s ls = Some s' -> InvS s'.
+Proof.
+  induction ls as [|l ls IH]; simpl; intros s s' I H.
+  - inversion H; subst; auto.
+  - destruct (step s l) eqn:E; [|discriminate]. apply (IH s0 s'); auto. eapply step_InvS; eauto.
+Qed.
+
+(* ------------------------------------------------------------------ *)
+(* history invariant                                                   *)
+
+Record InvH (hist : list label) (s : st) : Prop := {
+  hB : forall h c x, In (Call h c x) (effects s) -> In (PAddRoute c h) hist;
+  hR : forall r c h, In (r, (c, h)) (routes s) -> In (PAddRoute c h) hist;
+  hQ : forall c h, In (AddRoute c h) (ctlq s) -> In (PAddRoute c h) hist;
+  hC : forall h, cnt (isaddh h) hist
+                 = cnt (isr h) (routes s) + cnt (isq h) (ctlq s) + cnt (isd h) (effects s) }.
+
+Lemma InvH_init : InvH [] init.
+Proof. constructor; simpl; intros; try contradiction. reflexivity. Qed.
+
+Lemma isr_pair : forall h r c h', isr h (r, (c, h')) = Nat.eqb h' h.
+Proof. reflexivity. Qed.
+
+Ltac cnt_goal C :=
+  let h0 := fresh "h0" in
+  intro h0; specialize (C h0); rewrite ?cnt_cons in C; simpl in C;
+  rewrite ?cnt_app, ?cnt_one, ?cnt_cons, ?cnt_drop_all, ?cnt_nil, ?isr_pair; simpl;
+  repeat match goal with |- context [Nat.eqb ?a ?b] => destruct (Nat.eqb a b) end;
+  try lia.
+
+Lemma step_InvH : forall hist s l s', InvS s -> InvH hist s -> step s l = Some s' -> InvH (hist ++ [l]) s'.
+Proof.
+  intros hist s l s' IS [B R Q C] H.
+  assert (B' : forall h c x, In (Call h c x) (effects s) -> In (PAddRoute c h) (hist ++ [l]))
+    by (intros; apply in_or_app; left; eauto).
+  assert (R' : forall r c h, In (r, (c, h)) (routes s) -> In (PAddRoute c h) (hist ++ [l]))
+    by (intros; apply in_or_app; left; eauto).
+  assert (Q' : forall c h, In (AddRoute c h) (ctlq s) -> In (PAddRoute c h) (hist ++ [l]))
+    by (intros; apply in_or_app; left; eauto).
+  pose proof (iND _ IS) as ND.
+  destruct l; inv_step H; clean; unfold with_chans.
+  all: constructor; simpl; try solve [cnt_goal C]; easy1.
+  - intros r c1 h1 Hi. rewrite in_app_iff in Hi; simpl in Hi.
+    destruct Hi as [Hi|[Hi|[]]]; eauto. inversion Hi; subst. apply Q'; left; auto.
+  - intros h0 c0 x Hi. rewrite !in_app_iff in Hi; simpl in Hi.
+    destruct Hi as [Hi|[Hi|[Hi|[]]]]; eauto; try discriminate.
+    apply In_drop_all in Hi; destruct Hi; discriminate.
+  - intros h0 c0 x Hi. rewrite in_app_iff in Hi; simpl in Hi.
+    destruct Hi as [Hi|[Hi|[]]]; eauto. inversion Hi; subst.
+    eapply R'. apply lookup_In; eauto.
+  - intros r0 c0 h0 Hi. apply remove_key_In in Hi. eauto.
+  - match goal with L : lookup _ _ = Some _ |- _ => pose proof (cnt_remove _ _ _ _ ND L) as CR end.
+    intro h0. specialize (CR h0). specialize (C h0).
+    rewrite ?cnt_app, ?cnt_one; simpl.
+    destruct (Nat.eqb h h0); lia.
+  - intros h0 c0 x Hi. rewrite !in_app_iff in Hi; simpl in Hi.
+    destruct Hi as [Hi|Hi]; eauto.
+    apply In_drop_all in Hi; destruct Hi; discriminate.
+Qed.
+
+Lemma run_InvH : forall ls2 ls1 s1 s,
+  InvS s1 -> InvH ls1 s1 -> run s1 ls2 = Some s -> InvH (ls1 ++ ls2) s.
+Proof.
+  induction ls2 as [|l ls2 IH]; simpl; intros ls1 s1 s IS IH1 H.
+  - inversion H; subst. rewrite app_nil_r. auto.
+  - destruct (step s1 l) as [s2|] eqn:E; [|discriminate].
+    replace (ls1 ++ l :: ls2) with ((ls1 ++ [l]) ++ ls2) by (rewrite <- app_assoc; reflexivity).
+    apply (IH (ls1 ++ [l]) s2 s); auto.
+    + eapply step_InvS; eauto.
+    + eapply step_InvH; eauto.
+Qed.
+
+(* ------------------------------------------------------------------ *)
+(* invariant that needs well-formed schedules                          *)
+
+Record InvW (s : st) : Prop := {
+  wN : NCAD (effects s);
+  wD : forall h, In (DropArgs h) (effects s) -> calls_of h (effects s) = [] }.
+
+Lemma InvW_init : InvW init.
+Proof.
+  constructor; simpl.
+  - intros h pre post E D. destruct pre; [|discriminate]. destruct D as [[]|[]].
+  - intros h [].
+Qed.
+
+Lemma InvW_nocalls : forall es new,
+  NCAD es -> (forall h, In (DropArgs h) es -> calls_of h es = []) ->
+  (forall h, calls_of h new = []) -> (forall h, ~ In (DropArgs h) new) ->
+  NCAD (es ++ new) /\ (forall h, In (DropArgs h) (es ++ new) -> calls_of h (es ++ new) = []).
+Proof.
+  intros es new N D H1 H2. split.
+  - apply ncad_app; auto.
+  - intros h Hi. rewrite in_app_iff in Hi. destruct Hi as [Hi|Hi]; [|exfalso; eapply H2; eauto].
+    rewrite calls_of_app, H1, app_nil_r. auto.
+Qed.
+
+Lemma step_InvW : forall hist s l s',
+  (forall h, cnt (isaddh h) (hist ++ [l]) <= 1) ->
+  InvS s -> InvH hist s -> InvW s -> step s l = Some s' -> InvW s'.
+Proof.
+  intros hist s l s' W IS [B R Q C] [N D] H.
+  destruct l; inv_step H; clean; unfold with_chans.
+  all: try solve [constructor; simpl; assumption].
+  - (* PAddRoute, flag *)
+    assert (H0 : cnt (isaddh h) hist = 0).
+    { specialize (W h). rewrite cnt_app, cnt_one in W. simpl in W.
+      rewrite Nat.eqb_refl in W. lia. }
+    assert (NC : calls_of h (effects s) = []).
+    { apply calls_of_none. intros c0 x Hi. apply B in Hi.
+      pose proof (cnt_In _ (isaddh h) _ _ Hi) as X. simpl in X.
+      rewrite Nat.eqb_refl in X. specialize (X eq_refl). lia. }
+    constructor; simpl.
+    + apply ncad_app; auto.
+    + intros h' Hi. rewrite in_app_iff in Hi. rewrite calls_of_app; simpl; rewrite app_nil_r.
+      destruct Hi as [Hi|[Hi|[]]]; auto. inversion Hi; subst; auto.
+  - (* REvWake Shutdown *)
+    destruct (InvW_nocalls (effects s) (drop_all (routes s) ++ [Ack]) N D) as [X Y].
+    + intro h. rewrite calls_of_app, calls_of_drop_all. reflexivity.
+    + intros h Hi. rewrite in_app_iff in Hi. destruct Hi as [Hi|[Hi|[]]]; [|discriminate].
+      apply In_drop_all in Hi. destruct Hi; discriminate.
+    + constructor; simpl; auto.
+  - (* REvMsg *)
+    assert (ND : ~ dropped h (effects s)).
+    { intro Dh. apply dropped_cnt in Dh.
+      match goal with L : lookup _ _ = Some _ |- _ => apply lookup_In in L;
+        pose proof (cnt_In _ (isr h) _ _ L) as X end.
+      rewrite isr_pair, Nat.eqb_refl in X. specialize (X eq_refl).
+      specialize (W h). rewrite cnt_app in W. specialize (C h). lia. }
+    constructor; simpl.
+    + apply ncad_app; auto.
+      * intros h' Dh; simpl. destruct (Nat.eqb_spec h h'); auto. subst; contradiction.
+      * right. intros h' [[Hi|[]]|[Hi|[]]]; discriminate.
+    + intros h' Hi. rewrite in_app_iff in Hi. destruct Hi as [Hi|[Hi|[]]]; [|discriminate].
+      rewrite calls_of_app; simpl. destruct (Nat.eqb_spec h h').
+      * subst. exfalso. apply ND. right; auto.
+      * rewrite app_nil_r; auto.
+  - (* REvClosed *)
+    destruct (InvW_nocalls (effects s) [DropHandler h] N D) as [X Y].
+    + reflexivity.
+    + intros h' [Hi|[]]; discriminate.
+    + constructor; simpl; auto.
+  - (* REvWakeClosed *)
+    destruct (InvW_nocalls (effects s) (drop_all (routes s)) N D) as [X Y].
+    + intro h. apply calls_of_drop_all.
+    + intros h Hi. apply In_drop_all in Hi. destruct Hi; discriminate.
+    + constructor; simpl; auto.
+Qed.
+
+Lemma run_InvW : forall ls2 ls1 s1 s,
+  (forall h, cnt (isaddh h) (ls1 ++ ls2) <= 1) ->
+  InvS s1 -> InvH ls1 s1 -> InvW s1 -> run s1 ls2 = Some s -> InvW s.
+Proof.
+  induction ls2 as [|l ls2 IH]; simpl; intros ls1 s1 s W IS IH1 IW H.
+  - inversion H; subst; auto.
+  - destruct (step s1 l) as [s2|] eqn:E; [|discriminate].
+    assert (W' : forall h, cnt (isaddh h) ((ls1 ++ [l]) ++ ls2) <= 1).
+    { intro h. rewrite <- app_assoc. apply W. }
+    apply (IH (ls1 ++ [l]) s2 s); auto.
+    + eapply step_InvS; eauto.
+    + eapply step_InvH; eauto.
+    + eapply step_InvW; eauto.
+      intro h. specialize (W' h). rewrite cnt_app in W'. lia.
+Qed.
+
+(* routes_once as counting facts *)
+Lemma routes_once_h : forall ls cs hs, routes_once ls cs hs = true ->
+  forall h, cnt (isaddh h) ls + (if existsb (Nat.eqb h) hs then 1 else 0) <= 1.
+Proof.
+  induction ls as [|l ls IH]; intros cs hs H h.
+  - rewrite cnt_nil. destruct (existsb (Nat.eqb h) hs); lia.
+  - rewrite cnt_cons. destruct l; simpl in H; simpl; try (apply (IH cs hs H h)).
+    apply andb_prop in H; destruct H as [H H3]. apply andb_prop in H; destruct H as [H1 H2].
+    apply negb_true_iff in H2. specialize (IH _ _ H3 h). simpl in IH.
+    destruct (Nat.eqb_spec h0 h).
+    + subst. rewrite Nat.eqb_refl in IH; simpl in IH. rewrite H2. lia.
+    + destruct (Nat.eqb_spec h h0); [congruence|]. simpl in IH. lia.
+Qed.
+
+Lemma routes_once_c : forall ls cs hs, routes_once ls cs hs = true ->
+  forall c, cnt (isaddc c) ls + (if existsb (Nat.eqb c) cs then 1 else 0) <= 1.
+Proof.
+  induction ls as [|l ls IH]; intros cs hs H c.
+  - rewrite cnt_nil. destruct (existsb (Nat.eqb c) cs); lia.
+  - rewrite cnt_cons. destruct l; simpl in H; simpl; try (apply (IH cs hs H c)).
+    apply andb_prop in H; destruct H as [H H3]. apply andb_prop in H; destruct H as [H1 H2].
+    apply negb_true_iff in H1. specialize (IH _ _ H3 c). simpl in IH.
+    destruct (Nat.eqb_spec c0 c).
+    + subst. rewrite Nat.eqb_refl in IH; simpl in IH. rewrite H1. lia.
+    + destruct (Nat.eqb_spec c c0); [congruence|]. simpl in IH. lia.
+Qed.
+
+Lemma once_h : forall ls, routes_once ls [] [] = true -> forall h, cnt (isaddh h) ls <= 1.
+Proof. intros ls H h. pose proof (routes_once_h ls [] [] H h) as X. simpl in X. lia. Qed.
+Lemma once_c : forall ls, routes_once ls [] [] = true -> forall c, cnt (isaddc c) ls <= 1.
+Proof. intros ls H c. pose proof (routes_once_c ls [] [] H c) as X. simpl in X. lia. Qed.
+
+Lemma add_fun_h : forall ls c c' h, routes_once ls [] [] = true ->
+  In (PAddRoute c h) ls -> In (PAddRoute c' h) ls -> c = c'.
+Proof.
+  intros ls c c' h W H1 H2. destruct (Nat.eq_dec c c') as [|Hne]; auto. exfalso.
+  assert (X : 2 <= cnt (isaddh h) ls).
+  { apply (cnt_two _ (isaddh h) ls _ _ H1 H2); simpl; try apply Nat.eqb_refl.
+    intro E; inversion E; contradiction. }
+  pose proof (once_h ls W h). lia.
+Qed.
+
+Lemma add_fun_c : forall ls c h h', routes_once ls [] [] = true ->
+  In (PAddRoute c h) ls -> In (PAddRoute c h') ls -> h = h'.
+Proof.
+  intros ls c h h' W H1 H2. destruct (Nat.eq_dec h h') as [|Hne]; auto. exfalso.
+  assert (X : 2 <= cnt (isaddc c) ls).
+  { apply (cnt_two _ (isaddc c) ls _ _ H1 H2); simpl; try apply Nat.eqb_refl.
+    intro E; inversion E; contradiction. }
+  pose proof (once_c ls W c). lia.
+Qed.
+
+Lemma reach_S : forall ls s, run init ls = Some s -> InvS s.
+Proof. intros. eapply run_InvS; eauto using InvS_init. Qed.
+Lemma reach_H : forall ls s, run init ls = Some s -> InvH ls s.
+Proof. intros ls s H. apply (run_InvH ls [] init s InvS_init InvH_init H). Qed.
+Lemma reach_W : forall ls s, routes_once ls [] [] = true -> run init ls = Some s -> InvW s.
+Proof.
+  intros ls s W H.
+  apply (run_InvW ls [] init s (once_h ls W) InvS_init InvH_init InvW_init H).
+Qed.
+
+(* ================================================================== *)
+(* 1. pairing                                                          *)
+
+Theorem pairing_always : forall ls s, run init ls = Some s -> wakeups s = length (ctlq s).
+Proof. intros ls s H. apply iPair. eapply reach_S; eauto. Qed.
+
+Theorem pairing : forall ls s, run init ls = Some s -> stopped s = false -> wakeups s = length (ctlq s).
+Proof. intros ls s H _. eapply pairing_always; eauto. Qed.
+
+Theorem wake_never_blocks : forall ls s, run init ls = Some s -> stopped s = false -> wakeups s > 0 ->
+  exists s', step s REvWake = Some s'.
+Proof.
+  intros ls s H St W. pose proof (pairing ls s H St) as P.
+  unfold step. rewrite St.
+  destruct (wakeups s) eqn:Ew; [lia|].
+  destruct (ctlq s) as [|m q] eqn:Eq; [simpl in P; lia|].
+  destruct m; eexists; reflexivity.
+Qed.
+
+(* 2. *)
+Theorem no_panic : forall ls s, run init ls = Some s -> ~ In Panic (effects s).
+Proof. intros ls s H. apply iNP. eapply reach_S; eauto. Qed.
+
+(* 3. routing *)
+Theorem no_other_handler : forall ls s h c x, routes_once ls [] [] = true -> run init ls = Some s ->
+  In (Call h c x) (effects s) -> In (PAddRoute c h) ls.
+Proof. intros ls s h c x _ H Hi. eapply hB; eauto. apply reach_H; auto. Qed.
+
+Theorem routed_exact : forall ls s c h, routes_once ls [] [] = true -> run init ls = Some s ->
+  In (PAddRoute c h) ls -> calls_of h (effects s) ++ queue (get s c) = sent (get s c).
+Proof.
+  intros ls s c h W H Hi.
+  rewrite (calls_of_on h c).
+  - apply iA. eapply reach_S; eauto.
+  - intros h' c' x Hc. apply (hB _ _ (reach_H ls s H)) in Hc. split; intro; subst.
+    + eapply add_fun_h; eauto.
+    + eapply add_fun_c; eauto.
+Qed.
+
+Theorem unrouted_exact : forall ls s c, run init ls = Some s ->
+  (forall h, ~ In (PAddRoute c h) ls) -> queue (get s c) = sent (get s c).
+Proof.
+  intros ls s c H N. rewrite <- (iA _ (reach_S ls s H) c).
+  rewrite calls_on_none; auto.
+  intros h x Hc. apply (hB _ _ (reach_H ls s H)) in Hc. eapply N; eauto.
+Qed.
+
+Theorem routed_in_order : forall ls s c h, routes_once ls [] [] = true -> run init ls = Some s ->
+  In (PAddRoute c h) ls ->
+  (exists k, calls_of h (effects s) = firstn k (sent (get s c))) /\
+  (forall h' c' x, In (Call h' c' x) (effects s) -> h' = h -> c' = c).
+Proof.
+  intros ls s c h W H Hi. split.
+  - exists (length (calls_of h (effects s))).
+    rewrite <- (routed_exact ls s c h W H Hi).
+    rewrite firstn_app, Nat.sub_diag, firstn_all. simpl. rewrite app_nil_r. reflexivity.
+  - intros h' c' x Hc E. subst. apply (hB _ _ (reach_H ls s H)) in Hc.
+    eapply add_fun_h; eauto.
+Qed.
+
+(* 4. handler lifetime *)
+Theorem dropped_at_most_once : forall ls s h, routes_once ls [] [] = true -> run init ls = Some s ->
+  drops_of h (effects s) <= 1.
+Proof.
+  intros ls s h W H. rewrite drops_of_cnt.
+  pose proof (hC _ _ (reach_H ls s H) h). pose proof (once_h ls W h). lia.
+Qed.
+
+Theorem no_call_after_drop : forall ls s h, routes_once ls [] [] = true -> run init ls = Some s ->
+  forall pre post, effects s = pre ++ post -> In (DropHandler h) pre \/ In (DropArgs h) pre ->
+  calls_of h post = [].
+Proof.
+  intros ls s h W H pre post E D. exact (wN _ (reach_W ls s W H) h pre post E D).
+Qed.
+
+(* 5. shutdown and proxy drop *)
+Lemma stopped_step : forall s l s', stopped s = true -> step s l = Some s' ->
+  stopped s' = true /\ (effects s' = effects s \/ exists h, effects s' = effects s ++ [DropArgs h]).
+Proof.
+  intros s l s' St Hs. destruct l; inv_step Hs; clean; simpl; auto; try congruence.
+  split; auto. right; eexists; reflexivity.
+Qed.
+
+Theorem stopped_is_final : forall ls s, routes_once ls [] [] = true -> run init ls = Some s ->
+  stopped s = true ->
+  routes s = [] /\
+  (forall l s', step s l = Some s' -> effects s' = effects s \/ exists h, effects s' = effects s ++ [DropArgs h]) /\
+  (forall l s', step s l = Some s' -> stopped s' = true).
+Proof.
+  intros ls s _ H St. split; [|split].
+  - apply iStR; auto. eapply reach_S; eauto.
+  - intros l s' Hs. apply (stopped_step s l s' St Hs).
+  - intros l s' Hs. apply (stopped_step s l s' St Hs).
+Qed.
+
+(* the same over any continuation of the schedule: once stopped, no handler is ever called again *)
+Theorem stopped_forever : forall ls' s s', stopped s = true -> run s ls' = Some s' ->
+  stopped s' = true /\ forall h, calls_of h (effects s') = calls_of h (effects s).
+Proof.
+  induction ls' as [|l ls' IH]; simpl; intros s s' St H.
+  - inversion H; subst; auto.
+  - destruct (step s l) as [s1|] eqn:E; [|discriminate].
+    destruct (stopped_step s l s1 St E) as [St1 Ef].
+    destruct (IH s1 s' St1 H) as [St' C]. split; auto.
+    intro h. rewrite C. destruct Ef as [->|[h0 ->]]; auto.
+    rewrite calls_of_app; simpl. apply app_nil_r.
+Qed.
+
+Theorem stopped_ctlq_empty : forall ls s, run init ls = Some s -> stopped s = true -> ctlq s = [].
+Proof. intros ls s H St. apply iStQ; auto. eapply reach_S; eauto. Qed.
+
+Theorem stop_drops_all_strong : forall ls s c h, routes_once ls [] [] = true -> run init ls = Some s ->
+  stopped s = true -> In (PAddRoute c h) ls -> drops_of h (effects s) = 1.
+Proof.
+  intros ls s c h W H St Hi. rewrite drops_of_cnt.
+  pose proof (hC _ _ (reach_H ls s H) h) as C.
+  rewrite (iStR _ (reach_S ls s H) St), (iStQ _ (reach_S ls s H) St) in C.
+  rewrite !cnt_nil in C.
+  pose proof (once_h ls W h).
+  assert (1 <= cnt (isaddh h) ls).
+  { eapply cnt_In; eauto. simpl. apply Nat.eqb_refl. }
+  lia.
+Qed.
+
+Theorem stop_drops_all : forall ls s c h, routes_once ls [] [] = true -> run init ls = Some s ->
+  stopped s = true -> In (PAddRoute c h) ls ->
+  (drops_of h (effects s) = 1 \/ In (AddRoute c h) (ctlq s)).
+Proof. intros. left. eapply stop_drops_all_strong; eauto. Qed.
+
+Theorem ack_then_stopped : forall ls s, run init ls = Some s -> In Ack (effects s) -> stopped s = true.
+Proof. intros ls s H. apply iAck. eapply reach_S; eauto. Qed.
+
+Theorem shutdown_idempotent : forall ls s s', run init ls = Some s -> flag s = true ->
+  step s PShutdown = Some s' -> s' = s.
+Proof.
+  intros ls s s' _ F H. unfold step in H.
+  destruct (negb (proxy_alive s)); [discriminate|]. rewrite F in H. inversion H; auto.
+Qed.
+
+Theorem add_after_shutdown_never_invoked : forall ls s h, routes_once ls [] [] = true ->
+  run init ls = Some s -> In (DropArgs h) (effects s) -> calls_of h (effects s) = [].
+Proof. intros ls s h W H. apply wD. eapply reach_W; eauto. Qed.
+
+(* 6. *)
+Theorem shutdown_progress : forall ls s, run init ls = Some s -> waiting_ack s > 0 ->
+  (exists s', step s PAckWait = Some s') \/ (exists s', step s REvWake = Some s').
+Proof.
+  intros ls s H WA. pose proof (reach_S ls s H) as IS.
+  pose proof (iWA _ IS WA) as F.
+  destruct (stopped s) eqn:St.
+  - left. pose proof (iFA _ IS F St) as HA. unfold step.
+    destruct (waiting_ack s); [lia|].
+    assert (X : existsb (fun e => match e with Ack => true | _ => false end) (effects s) = true).
+    { apply existsb_exists. exists Ack; auto. }
+    rewrite X. eexists; reflexivity.
+  - right. destruct (iSh _ IS F St) as [pre [E N]].
+    apply (wake_never_blocks ls s H St).
+    rewrite (iPair _ IS), E, app_length. simpl. lia.
+Qed.
+
+(* non-vacuity: a well-formed schedule that registers a route after traffic was queued, delivers it, hangs up,
+   shuts down, acknowledges, and offers a late route *)
+Definition demo : list label :=
+  [PNewChan; PSend 0 7; PAddRoute 0 5; PSend 0 8; REvWake; REvMsg 1; REvMsg 1; PHup 0; REvClosed 1;
+   PNewChan; PAddRoute 1 6; PShutdown; REvWake; REvWake; PAckWait; PAddRoute 2 9; PProxyDrop].
+Example demo_wf : routes_once demo [] [] = true.
+Proof. reflexivity. Qed.
+Example demo_effects : option_map effects (run init demo)
+  = Some [Call 5 0 7; Call 5 0 8; DropHandler 5; DropHandler 6; Ack; DropArgs 9].
+Proof. vm_compute. reflexivity. Qed.
+
+Print Assumptions pairing.
+Print Assumptions wake_never_blocks.
+Print Assumptions no_panic.
+Print Assumptions routed_in_order.
+Print Assumptions routed_exact.
+Print Assumptions unrouted_exact.
+Print Assumptions no_other_handler.
+Print Assumptions dropped_at_most_once.
+Print Assumptions no_call_after_drop.
+Print Assumptions stopped_is_final.
+Print Assumptions stopped_forever.
+Print Assumptions stopped_ctlq_empty.
+Print Assumptions stop_drops_all_strong.
+Print Assumptions stop_drops_all.
+Print Assumptions ack_then_stopped.
+Print Assumptions shutdown_idempotent.
+Print Assumptions add_after_shutdown_never_invoked.
+Print Assumptions shutdown_progress.
